@@ -26,4 +26,12 @@ except Exception as ex:
     text = '(* soupsieve could not be imported: %r *)\nDefinition ConstGen_untranslatable : unit := tt.\n' % (ex,)
     status['ConstGen'] = {'_import': repr(ex)}
 write_if_changed(os.path.join(gen, 'ConstGen.v'), text)
+try:
+    import t3_api  # noqa: E402
+    text, st = t3_api.generate(REPO)
+    status['ApiGen'] = {k: v for k, v in st.items() if v != 'ok'} or 'ok'
+except Exception as ex:
+    text = '(* t3 failed: %r *)\nDefinition ApiGen_untranslatable : unit := tt.\n' % (ex,)
+    status['ApiGen'] = {'_error': repr(ex)}
+write_if_changed(os.path.join(gen, 'ApiGen.v'), text)
 print(json.dumps(status))
